@@ -32,6 +32,7 @@ class State:
         self.depth = 0
         self.model = None      # a z3 model known to satisfy pc[:model_len] (speeds up branching)
         self.model_len = 0
+        self.axiom_ids: set = set()  # ids of pc entries that only restrict the range of a fresh symbol
 
     def fork(self) -> "State":
         s = State()
@@ -43,11 +44,22 @@ class State:
         s.ghost = dict(self.ghost)
         s.depth = self.depth
         s.model, s.model_len = self.model, self.model_len
+        s.axiom_ids = set(self.axiom_ids)
         return s
 
     @property
     def frame(self) -> Frame:
         return self.frames[self.stack[-1]]
 
-    def assume(self, c: z3.BoolRef) -> None:
+    def assume(self, c: z3.BoolRef, axiom: bool = False) -> None:
+        """`axiom`: the fact only restricts the range of a symbol that was just created (it is not a decision of the
+        path), so it must not become part of a guard"""
         self.pc.append(c)
+        if axiom:
+            self.axiom_ids.add(c.get_id())
+
+    def split(self, entries):
+        """(decisions, axioms) among the given pc entries"""
+        dec = [c for c in entries if c.get_id() not in self.axiom_ids]
+        ax = [c for c in entries if c.get_id() in self.axiom_ids]
+        return dec, ax
